@@ -1,1 +1,260 @@
-// harness file dp_diagnostics (see /verif/DESIGN.md)
+// C17 harnesses: extended diagnostics storage and block iteration (src/dp/diagnostics.rs).
+//
+// Included as `crate::dp::diagnostics::verif` under cfg(kani).
+
+use super::*;
+use crate::verif_support::*;
+
+/// What the reference parser says about the block starting at `o` in `raw`.
+#[derive(Clone, Copy, PartialEq, Eq)]
+enum RefBlock {
+    /// no more data
+    End,
+    /// malformed header / cut off: iteration must stop for good
+    Malformed,
+    /// identifier-related block of total length `len` (header included)
+    Identifier(usize),
+    /// channel-related block (3 bytes)
+    Channel,
+    /// device-related block of total length `len` (header included)
+    Device(usize),
+}
+
+/// Reference block parser, written from the DP-V0 diagnostics layout: the two top bits of the
+/// header select the block type (00 device, 01 identifier, 10 channel, 11 reserved); device and
+/// identifier headers carry the block length *including the header* in the low six bits, so a
+/// length of zero cannot describe a block; a channel block is exactly three bytes.
+fn ref_block(raw: &[u8], o: usize) -> RefBlock {
+    if o >= raw.len() {
+        return RefBlock::End;
+    }
+    let h = raw[o];
+    let remaining = raw.len() - o;
+    match h >> 6 {
+        0b00 | 0b01 => {
+            let len = usize::from(h & 0x3f);
+            if len == 0 || len > remaining {
+                RefBlock::Malformed
+            } else if h >> 6 == 0 {
+                RefBlock::Device(len)
+            } else {
+                RefBlock::Identifier(len)
+            }
+        }
+        0b10 => {
+            if remaining < 3 {
+                RefBlock::Malformed
+            } else {
+                RefBlock::Channel
+            }
+        }
+        _ => RefBlock::Malformed,
+    }
+}
+
+fn ref_channel_error(b: u8) -> ChannelError {
+    match b & 0x1f {
+        1 => ChannelError::ShortCircuit,
+        2 => ChannelError::UnderVoltage,
+        3 => ChannelError::OverVoltage,
+        4 => ChannelError::OverLoad,
+        5 => ChannelError::OverTemperature,
+        6 => ChannelError::LineBreak,
+        7 => ChannelError::UpperLimitOvershoot,
+        8 => ChannelError::LowerLimitUndershoot,
+        9 => ChannelError::Error,
+        v if v >= 16 => ChannelError::Vendor(v),
+        r => ChannelError::Reserved(r),
+    }
+}
+
+fn ref_channel_dtype(b: u8) -> ChannelDataType {
+    match b >> 5 {
+        1 => ChannelDataType::Bit,
+        2 => ChannelDataType::Bit2,
+        3 => ChannelDataType::Bit4,
+        4 => ChannelDataType::Byte,
+        5 => ChannelDataType::Word,
+        6 => ChannelDataType::DWord,
+        _ => ChannelDataType::Invalid,
+    }
+}
+
+/// Iterate to exhaustion over symbolic stored bytes; compare every yielded block with the
+/// reference parser.  `N` = maximum stored length.
+fn iter_blocks<const N: usize>(log_on: bool) {
+    if log_on {
+        log::set_max_level(log::LevelFilter::Trace);
+    }
+    let mut storage: [u8; N] = kani::any();
+    let shadow = storage;
+    let length: usize = kani::any();
+    kani::assume(length <= N);
+    // a diagnostics buffer of at least one byte exists (the no-buffer case: c17_iter_no_buffer)
+    let ext = ExtendedDiagnostics {
+        buffer: managed::ManagedSlice::Borrowed(&mut storage[..]),
+        length,
+    };
+    let raw = &shadow[..length];
+    let base = ext.raw_diag_buffer().unwrap().as_ptr() as usize;
+
+    let mut it = ext.iter_diag_blocks();
+    let mut o = 0usize; // reference cursor
+    let mut stopped = false;
+    let mut calls = 0usize;
+    let mut yielded = 0usize;
+    while calls < N + 2 {
+        calls += 1;
+        let got = it.next();
+        let want = if stopped { RefBlock::End } else { ref_block(raw, o) };
+        match want {
+            RefBlock::End | RefBlock::Malformed => {
+                assert!(got.is_none(), "C17/iter-stop: nothing is yielded at the end of the data or after the first malformed block");
+                stopped = true;
+                kani::cover!(want == RefBlock::Malformed && yielded >= 1, "cover: malformed block after a good one");
+            }
+            RefBlock::Channel => {
+                match got {
+                    Some(ExtDiagBlock::Channel(c)) => {
+                        assert!(c.module == raw[o] & 0x3f, "C17/iter-channel: module number");
+                        assert!(c.channel == raw[o + 1] & 0x3f, "C17/iter-channel: channel number");
+                        assert!(c.input == (raw[o + 1] & 0x40 != 0) && c.output == (raw[o + 1] & 0x80 != 0), "C17/iter-channel: input/output flags");
+                        assert!(c.dtype == ref_channel_dtype(raw[o + 2]), "C17/iter-channel: channel data type");
+                        assert!(c.error == ref_channel_error(raw[o + 2]), "C17/iter-channel: channel error");
+                        kani::cover!(true, "cover: channel block decoded");
+                    }
+                    _ => assert!(false, "C17/iter-type: a channel-related block is yielded as such"),
+                }
+                o += 3;
+                yielded += 1;
+            }
+            RefBlock::Device(len) => {
+                match got {
+                    Some(ExtDiagBlock::Device(d)) => {
+                        assert!(d.len() == len - 1, "C17/iter-bounds: device block has the announced length");
+                        assert!(d.as_ptr() as usize == base + o + 1, "C17/iter-bounds: device block starts right after its header, consecutive to the previous block");
+                        kani::cover!(len == 1, "cover: header-only device block");
+                        kani::cover!(len > 2 && o > 0, "cover: device block with data after another block");
+                    }
+                    _ => assert!(false, "C17/iter-type: a device-related block is yielded as such"),
+                }
+                o += len;
+                yielded += 1;
+            }
+            RefBlock::Identifier(len) => {
+                match got {
+                    Some(ExtDiagBlock::Identifier(bits)) => {
+                        assert!(bits.len() == 8 * (len - 1), "C17/iter-bounds: identifier block has the announced length");
+                        if len > 1 {
+                            let i: usize = kani::any();
+                            kani::assume(i < 8 * (len - 1));
+                            let want_bit = raw[o + 1 + i / 8] >> (i % 8) & 1 != 0;
+                            assert!(bits[i] == want_bit, "C17/iter-identifier: bit i of the block is module i (LSB first)");
+                        }
+                        kani::cover!(len > 1, "cover: identifier block with data");
+                    }
+                    _ => assert!(false, "C17/iter-type: an identifier-related block is yielded as such"),
+                }
+                o += len;
+                yielded += 1;
+            }
+        }
+    }
+    assert!(stopped, "C17/iter-terminates: iteration ends after at most length+1 calls");
+    kani::cover!(yielded >= 3, "cover: three blocks in one buffer");
+}
+
+#[kani::proof]
+#[kani::unwind(12)]
+fn c17_iter_blocks_q() {
+    iter_blocks::<8>(false);
+}
+
+#[kani::proof]
+#[kani::unwind(28)]
+fn c17_iter_blocks_t() {
+    iter_blocks::<24>(false);
+}
+
+/// Same with logging enabled at every level (log arguments are evaluated).
+#[kani::proof]
+#[kani::unwind(12)]
+#[kani::stub(log::__private_api::loc, crate::verif_support::log_loc_stub)]
+fn c17_iter_blocks_logging_q() {
+    iter_blocks::<8>(true);
+}
+
+/// Iterating a peripheral's extended diagnostics when no diagnostics buffer was attached.
+#[kani::proof]
+#[kani::unwind(4)]
+fn c17_iter_no_buffer() {
+    let ext = ExtendedDiagnostics::default();
+    assert!(!ext.is_available() && ext.raw_diag_buffer().is_none(), "C17/no-buffer: no buffer means no raw data");
+    let mut it = ext.iter_diag_blocks();
+    assert!(it.next().is_none(), "C17/no-buffer: iterating without a diagnostics buffer yields nothing");
+    assert!(it.next().is_none(), "C17/no-buffer: iterating without a diagnostics buffer yields nothing");
+    kani::cover!(true, "cover: iteration without buffer returns");
+}
+
+/// `fill`: stored iff a buffer exists and the data fits; otherwise nothing changes.
+fn fill_stores<const N: usize>() {
+    let mut storage: [u8; N] = kani::any();
+    let before = storage;
+    let cap: usize = kani::any();
+    kani::assume(cap <= N);
+    let old_len: usize = kani::any();
+    kani::assume(old_len <= cap);
+    let data: [u8; N] = kani::any();
+    let dlen: usize = kani::any();
+    kani::assume(dlen <= N);
+
+    let mut ext = ExtendedDiagnostics {
+        buffer: managed::ManagedSlice::Borrowed(&mut storage[..cap]),
+        length: old_len,
+    };
+    let stored = ext.fill(&data[..dlen]);
+    assert!(stored == (cap > 0 && dlen <= cap), "C17/store: extended diagnostics are stored iff a buffer exists and they fit");
+    if stored {
+        let raw = ext.raw_diag_buffer().unwrap();
+        assert!(raw.len() == dlen, "C17/store: stored length equals the reply's extended part");
+        let mut i = 0;
+        while i < dlen {
+            assert!(raw[i] == data[i], "C17/store: stored bytes equal the reply's extended part");
+            i += 1;
+        }
+        kani::cover!(dlen == cap && cap == N, "cover: exactly fitting diagnostics stored");
+    } else {
+        assert!(ext.length == old_len, "C17/store: a rejected fill leaves the stored length unchanged");
+        let mut i = 0;
+        while i < cap {
+            assert!(ext.buffer[i] == before[i], "C17/store: a rejected fill leaves the stored bytes unchanged");
+            i += 1;
+        }
+        kani::cover!(cap > 0 && dlen == cap + 1, "cover: one byte too many rejected");
+        kani::cover!(cap == 0, "cover: no buffer");
+    }
+}
+
+#[kani::proof]
+#[kani::unwind(10)]
+fn c17_fill_q() {
+    fill_stores::<8>();
+}
+
+#[kani::proof]
+#[kani::unwind(66)]
+fn c17_fill_t() {
+    fill_stores::<64>();
+}
+
+/// Construct extended diagnostics storage with a symbolic fill level (for other harness files).
+pub(crate) fn mk_ext_diag<'a>(buf: &'a mut [u8], length: usize) -> ExtendedDiagnostics<'a> {
+    ExtendedDiagnostics {
+        buffer: managed::ManagedSlice::Borrowed(buf),
+        length,
+    }
+}
+
+pub(crate) fn ext_diag_len(e: &ExtendedDiagnostics) -> usize {
+    e.length
+}
